@@ -293,35 +293,57 @@ func ruleR072(c *Ctx, r *Repo) {
 		return
 	}
 	c.Func(funcKey(ip, visit))
-	collected := map[string]bool{}
-	ast.Inspect(visit.Body, func(n ast.Node) bool {
-		cc, ok := n.(*ast.CaseClause)
-		if !ok {
-			return true
-		}
-		adds := false
-		for _, s := range cc.Body {
-			ast.Inspect(s, func(m ast.Node) bool {
-				if call, ok := m.(*ast.CallExpr); ok {
-					if fn := calleeFunc(info, call); fn != nil && fn.Name() == "add" {
-						adds = true
+	// functions of the package that append to the visitor's list (Visit may delegate to one)
+	adders := map[string]bool{}
+	for fn, fd := range pkgFuncs(ip) {
+		ast.Inspect(fd.Body, func(n ast.Node) bool {
+			if as, ok := n.(*ast.AssignStmt); ok && len(as.Lhs) == 1 && len(as.Rhs) == 1 {
+				if se, ok := as.Lhs[0].(*ast.SelectorExpr); ok && se.Sel.Name == "declaredInterfaces" {
+					if call, ok := as.Rhs[0].(*ast.CallExpr); ok && calleeName(info, call) == "builtin.append" {
+						adders[strings.ReplaceAll(strings.ReplaceAll(fn.FullName(), "*", ""), modPath+"/", "")] = true
 					}
 				}
-				return true
-			})
+			}
+			return true
+		})
+	}
+	collects := func(p *dtPath) bool {
+		if hasStep(p, "store RECV.declaredInterfaces = builtin.append(RECV.declaredInterfaces, ") > 0 {
+			return true
 		}
-		if adds {
-			for _, e := range cc.List {
-				if t := info.TypeOf(e); t != nil {
-					collected[types.TypeString(t, nil)] = true
-				}
+		for _, call := range p.Calls {
+			if adders[call.Name] && call.Name != "(internal.NodeVisitor).Visit" {
+				return true
 			}
 		}
-		return true
-	})
-	for _, t := range []string{"*go/ast.InterfaceType", "*go/ast.IndexExpr", "*go/ast.IndexListExpr"} {
-		c.Check(collected[t], "R07.2", "Visit|collects|"+t, r.Pos(visit.Pos()), "type specs with a "+t+" are candidates", "type specs whose type expression is a "+t+" are no longer collected: such interfaces can never be mocked")
+		return false
 	}
+	paths, _ := enumerateFunc(info, visit)
+	const spec = "ARG0.(*ast.TypeSpec)"
+	for _, t := range []string{"*ast.InterfaceType", "*ast.IndexExpr", "*ast.IndexListExpr"} {
+		n, all := 0, true
+		for _, p := range paths {
+			if !visitConsistent(p, "ARG0", "*ast.TypeSpec") || !visitConsistent(p, spec+".Type", t) {
+				continue
+			}
+			n++
+			if !collects(p) || p.Exit != "return" && p.Exit != "end" {
+				all = false
+			}
+		}
+		gt := strings.Replace(t, "*ast.", "*go/ast.", 1)
+		c.Check(n > 0 && all, "R07.2", "Visit|collects|"+gt, r.Pos(visit.Pos()), "type specs with a "+gt+" are candidates", "type specs whose type expression is a "+gt+" are no longer collected: such interfaces can never be mocked")
+	}
+	// nodes other than function declarations/literals are descended into (the visitor is returned)
+	okDesc := true
+	for _, p := range paths {
+		for _, k := range []string{"*ast.File", "*ast.GenDecl", "*ast.TypeSpec"} {
+			if visitConsistent(p, "ARG0", k) && !(p.Exit == "return" && len(p.Ret) == 1 && p.Ret[0] == "RECV") {
+				okDesc = false
+			}
+		}
+	}
+	c.Check(okDesc, "R07.2", "Visit|descends-into-declarations", r.Pos(visit.Pos()), "the visitor is returned for files, declarations and type specs", "NodeVisitor.Visit does not return the visitor for file/declaration/type-spec nodes: the type specs below them are never visited, so their interfaces are never discovered")
 	goR024(c, r, ip, "R07.2") // no descent into function bodies, nil-checked lookup (reported under R02.4's keys)
 }
 
@@ -471,81 +493,108 @@ func ruleR075(c *Ctx, r *Repo, rule string) {
 		c.Fail(rule, "subPackages|missing", "config/config.go", "RootConfig.subPackages not found")
 	} else {
 		c.Func(funcKey(cp, fd))
-		okLoad, okDrop := false, false
+		fc := newFuncCanon(info, fd)
+		okLoad := false
 		ast.Inspect(fd.Body, func(n ast.Node) bool {
-			switch x := n.(type) {
-			case *ast.CallExpr:
-				if calleeName(info, x) == "golang.org/x/tools/go/packages.Load" && len(x.Args) == 2 {
-					if be, ok := x.Args[1].(*ast.BinaryExpr); ok && be.Op == token.ADD {
-						if lit, ok := be.Y.(*ast.BasicLit); ok && lit.Value == `"/..."` {
-							if id, ok := be.X.(*ast.Ident); ok && info.Uses[id] == info.Defs[fd.Type.Params.List[0].Names[0]] {
-								okLoad = true
-							}
-						}
-					}
-				}
-			case *ast.IfStmt:
-				if s := types.ExprString(x.Cond); strings.HasPrefix(s, "len(") && strings.HasSuffix(s, ".GoFiles) == 0") && len(x.Body.List) == 1 {
-					if bs, ok := x.Body.List[0].(*ast.BranchStmt); ok && bs.Tok == token.CONTINUE {
-						okDrop = true
-					}
+			if x, ok := n.(*ast.CallExpr); ok && calleeName(info, x) == "golang.org/x/tools/go/packages.Load" && len(x.Args) == 2 {
+				if fc.E(x.Args[1]) == `ARG0 + "/..."` {
+					okLoad = true
 				}
 			}
 			return true
 		})
 		c.Check(okLoad, rule, "subPackages|pattern", r.Pos(fd.Pos()), "loads <pkg>/...", "subPackages does not load exactly '<package path>/...'")
-		c.Check(okDrop, rule, "subPackages|no-go-files", r.Pos(fd.Pos()), "packages without Go files are dropped", "subPackages no longer drops packages that contain no Go files")
+		// every loaded package without Go files is dropped: in the loop over the loaded packages no path
+		// consistent with len(GoFiles) == 0 appends the package's path
+		var loops []*ast.RangeStmt
+		ast.Inspect(fd.Body, func(n ast.Node) bool {
+			if rs, ok := n.(*ast.RangeStmt); ok && typeIs(info.TypeOf(rs.X), "[]*golang.org/x/tools/go/packages.Package") {
+				loops = append(loops, rs)
+			}
+			return true
+		})
+		okDrop := len(loops) == 1
+		why := "subPackages no longer drops packages that contain no Go files"
+		if okDrop {
+			rs := loops[0]
+			d := newDT(info)
+			start := &dtPath{env: map[types.Object]string{}}
+			if v, ok := rs.Value.(*ast.Ident); ok {
+				start.env[info.Defs[v]] = "PKG"
+			}
+			d.paths = nil
+			d.stmts(start, rs.Body.List, func(p *dtPath) { d.finish(p, "end") })
+			appends := 0
+			for _, p := range d.paths {
+				emptyOK := true // is the path consistent with a package that has no Go files?
+				for _, a := range p.Atoms {
+					if v, ok := lenAtom(a.Expr, "builtin.len(PKG.GoFiles)", 0); ok {
+						if v != a.Val {
+							emptyOK = false
+						}
+					}
+				}
+				app := hasStep(p, "builtin.append(") > 0 && hasStep(p, "PKG.PkgPath") > 0
+				if app {
+					appends++
+				}
+				if app && emptyOK {
+					okDrop = false
+					why = "subPackages keeps a package that contains no Go files on path " + p.String()
+				}
+			}
+			if appends == 0 {
+				okDrop = false
+				why = "subPackages never collects a loaded package's path"
+			}
+		}
+		c.Check(okDrop, rule, "subPackages|no-go-files", r.Pos(fd.Pos()), "packages without Go files are dropped", why)
 	}
-	fd := FuncDecl(cp, "RootConfig.Initialize")
-	if fd == nil {
+	init := FuncDecl(cp, "RootConfig.Initialize")
+	if init == nil {
 		c.Fail(rule, "Initialize|missing", "config/config.go", "RootConfig.Initialize not found")
 		return
 	}
-	c.Func(funcKey(cp, fd))
-	rs := rangeOverC(cp, fd, ".subPackages<(config.RootConfig).subPackages>(")
+	c.Func(funcKey(cp, init))
+	// the sub-package loop is in Initialize or in a same-package function it calls
+	var fd *ast.FuncDecl
+	var rs *ast.RangeStmt
+	for _, f := range withCallees(cp, init) {
+		if f.Recv == nil || f == FuncDecl(cp, "RootConfig.subPackages") {
+			continue
+		}
+		if x := rangeOverC(cp, f, ".subPackages<(config.RootConfig).subPackages>("); x != nil {
+			fd, rs = f, x
+			break
+		}
+	}
 	if rs == nil {
-		c.Fail(rule, "Initialize|subpkg-loop", r.Pos(fd.Pos()), "no loop over the discovered sub-packages")
+		c.Fail(rule, "Initialize|subpkg-loop", r.Pos(init.Pos()), "no loop over the discovered sub-packages")
 		return
 	}
-	// environment of the enclosing loop: parentPkgConfig := c.Packages[recursivePackageName]
+	if fd != init {
+		c.Func(funcKey(cp, fd))
+	}
 	d := newDT(info)
-	start := seedEnv(d, fd)
-	var outerRange *ast.RangeStmt
+	start := d.envBefore(seedEnv(d, fd), fd.Body.List, rs)
+	// the recursive package = whatever subPackages was asked about
+	recpkg := ""
 	ast.Inspect(fd.Body, func(n ast.Node) bool {
-		if o, ok := n.(*ast.RangeStmt); ok {
-			found := false
-			ast.Inspect(o.Body, func(m ast.Node) bool {
-				if m == ast.Node(rs) {
-					found = true
-				}
-				return true
-			})
-			if found && o != rs {
-				outerRange = o
-			}
+		if call, ok := n.(*ast.CallExpr); ok && call.Pos() < rs.Body.Pos() && len(call.Args) == 1 && calleeFunc(info, call) != nil && pkgFuncs(cp)[calleeFunc(info, call)] == FuncDecl(cp, "RootConfig.subPackages") {
+			recpkg = d.canon(start, call.Args[0])
 		}
 		return true
 	})
-	if outerRange != nil {
-		if v, ok := outerRange.Value.(*ast.Ident); ok {
-			start.env[info.Defs[v]] = "RECPKG"
-		}
-		for _, s := range outerRange.Body.List {
-			if s == ast.Stmt(rs) {
-				break
-			}
-			if as, ok := s.(*ast.AssignStmt); ok && len(as.Lhs) == 1 && len(as.Rhs) == 1 {
-				if id, ok := as.Lhs[0].(*ast.Ident); ok {
-					d.bind(start, id, d.canon(start, as.Rhs[0]))
-				}
-			}
-		}
-	}
 	if v, ok := rs.Value.(*ast.Ident); ok {
 		start.env[info.Defs[v]] = "SUBPKG"
 	}
 	d.paths = nil
 	d.stmts(start, rs.Body.List, func(p *dtPath) { d.finish(p, "end") })
+	if recpkg != "" {
+		for _, p := range d.paths {
+			p.rewrite(func(s string) string { return replaceToken(s, recpkg, "RECPKG") })
+		}
+	}
 	nStore := 0
 	for _, p := range d.paths {
 		stores := hasStep(p, "store RECV.Packages[SUBPKG] = ")
@@ -577,7 +626,7 @@ func ruleR075(c *Ctx, r *Repo, rule string) {
 			if hasExist && ex {
 				keep := false
 				for _, s := range p.Steps {
-					if strings.HasPrefix(s, "store RECV.Packages[SUBPKG] = RECV.Packages[SUBPKG]#0") {
+					if strings.HasPrefix(s, "store RECV.Packages[SUBPKG] = RECV.Packages[SUBPKG]") {
 						keep = true
 					}
 				}
@@ -590,36 +639,139 @@ func ruleR075(c *Ctx, r *Repo, rule string) {
 	if nStore == 0 {
 		c.Fail(rule, "Initialize|no-inject", r.Pos(rs.Pos()), "no path injects a discovered sub-package")
 	}
-	checkRecursiveOrder(c, r, cp, fd, rule, "Initialize|recursive-order")
+	checkRecursiveOrder(c, r, cp, init, rule, "Initialize|recursive-order")
+}
+
+// lenAtom evaluates an atom of the form "<lenExpr> OP <int>" (either operand order) for len == n.
+func lenAtom(atom, lenExpr string, n int) (bool, bool) {
+	for _, op := range []string{"==", "!=", "<=", ">=", "<", ">"} {
+		var k int
+		flip := false
+		if strings.HasPrefix(atom, lenExpr+" "+op+" ") {
+			if _, err := fmt.Sscanf(atom[len(lenExpr)+len(op)+2:], "%d", &k); err != nil {
+				continue
+			}
+		} else if strings.HasSuffix(atom, " "+op+" "+lenExpr) {
+			if _, err := fmt.Sscanf(atom[:len(atom)-len(lenExpr)-len(op)-2], "%d", &k); err != nil {
+				continue
+			}
+			flip = true
+		} else {
+			continue
+		}
+		a, b := n, k
+		if flip {
+			a, b = k, n
+		}
+		switch op {
+		case "==":
+			return a == b, true
+		case "!=":
+			return a != b, true
+		case "<=":
+			return a <= b, true
+		case ">=":
+			return a >= b, true
+		case "<":
+			return a < b, true
+		case ">":
+			return a > b, true
+		}
+	}
+	return false, false
+}
+
+// replaceToken replaces tok in s where it is not part of a longer identifier.
+func replaceToken(s, tok, repl string) string {
+	if tok == "" {
+		return s
+	}
+	var b strings.Builder
+	for {
+		i := strings.Index(s, tok)
+		if i < 0 {
+			b.WriteString(s)
+			return b.String()
+		}
+		isID := func(c byte) bool {
+			return c == '_' || c >= '0' && c <= '9' || c >= 'a' && c <= 'z' || c >= 'A' && c <= 'Z'
+		}
+		before := i > 0 && isID(s[i-1]) && isID(tok[0])
+		after := i+len(tok) < len(s) && isID(s[i+len(tok)]) && isID(tok[len(tok)-1])
+		b.WriteString(s[:i])
+		if before || after {
+			b.WriteString(tok)
+		} else {
+			b.WriteString(repl)
+		}
+		s = s[i+len(tok):]
+	}
 }
 
 // checkRecursiveOrder: the recursive packages are sorted deepest-first with a total order before expansion.
 func checkRecursiveOrder(c *Ctx, r *Repo, cp *packages.Package, fd *ast.FuncDecl, rule, key string) {
 	info := cp.TypesInfo
-	var sortCall *ast.CallExpr
-	var loopPos, sortPos token.Pos
-	for _, s := range fd.Body.List {
-		switch x := s.(type) {
-		case *ast.ExprStmt:
-			if call, ok := x.X.(*ast.CallExpr); ok {
-				n := calleeName(info, call)
-				if (n == "sort.Slice" || n == "sort.SliceStable" || n == "slices.SortFunc" || n == "sort.Strings" || n == "slices.Sort") && len(call.Args) >= 1 && types.ExprString(call.Args[0]) == "recursivePackages" {
-					sortCall = call
-					sortPos = x.Pos()
+	funcs := pkgFuncs(cp)
+	sub := FuncDecl(cp, "RootConfig.subPackages")
+	reachesSub := func(body ast.Node) bool {
+		found := false
+		ast.Inspect(body, func(n ast.Node) bool {
+			if call, ok := n.(*ast.CallExpr); ok {
+				if fn := calleeFunc(info, call); fn != nil && funcs[fn] != nil {
+					if funcs[fn] == sub {
+						found = true
+					} else {
+						for _, g := range withCallees(cp, funcs[fn]) {
+							if g == sub {
+								found = true
+							}
+						}
+					}
 				}
 			}
-		case *ast.RangeStmt:
-			if types.ExprString(x.X) == "recursivePackages" {
-				loopPos = x.Pos()
+			return !found
+		})
+		return found
+	}
+	// the expansion loop: the range in Initialize whose body reaches subPackages; its operand is the list
+	var list types.Object
+	var loopPos, sortPos token.Pos
+	ast.Inspect(fd.Body, func(n ast.Node) bool {
+		if rs, ok := n.(*ast.RangeStmt); ok && !loopPos.IsValid() && reachesSub(rs.Body) {
+			if id, ok := ast.Unparen(rs.X).(*ast.Ident); ok {
+				list = info.Uses[id]
+				loopPos = rs.Pos()
 			}
 		}
+		return true
+	})
+	var sortCall *ast.CallExpr
+	if list != nil {
+		ast.Inspect(fd.Body, func(n ast.Node) bool {
+			if call, ok := n.(*ast.CallExpr); ok && len(call.Args) >= 1 {
+				switch calleeName(info, call) {
+				case "sort.Slice", "sort.SliceStable", "slices.SortFunc", "slices.SortStableFunc", "sort.Strings", "slices.Sort":
+					if id, ok := ast.Unparen(call.Args[0]).(*ast.Ident); ok && info.Uses[id] == list {
+						sortCall = call
+						sortPos = call.Pos()
+					}
+				}
+			}
+			return true
+		})
 	}
 	if sortCall == nil || !loopPos.IsValid() || sortPos > loopPos {
 		c.Fail(rule, key, r.Pos(fd.Pos()), "the recursive packages are expanded in map-iteration order: no sort of the list precedes the expansion loop, so a sub-package below nested recursive packages inherits from whichever ancestor comes first")
 		return
 	}
-	if n := calleeName(info, sortCall); n != "sort.Slice" && n != "sort.SliceStable" {
+	n := calleeName(info, sortCall)
+	if n == "sort.Strings" || n == "slices.Sort" {
 		c.Fail(rule, key, r.Pos(sortPos), "the recursive packages are sorted with "+n+", which does not put deeper packages first: a sub-package inherits from the farthest instead of the nearest recursive ancestor")
+		return
+	}
+	byIndex := n == "sort.Slice" || n == "sort.SliceStable"
+	if !byIndex {
+		c.Fail(rule, key, r.Pos(sortPos), "cannot analyse the three-way comparator of "+n)
 		return
 	}
 	fl, ok := sortCall.Args[1].(*ast.FuncLit)
@@ -628,7 +780,8 @@ func checkRecursiveOrder(c *Ctx, r *Repo, cp *packages.Package, fd *ast.FuncDecl
 		return
 	}
 	d := newDT(info)
-	start := &dtPath{env: map[types.Object]string{}}
+	d.inline = funcs
+	start := &dtPath{env: map[types.Object]string{list: "L"}}
 	i := 0
 	for _, f := range fl.Type.Params.List {
 		for _, n := range f.Names {
@@ -638,7 +791,12 @@ func checkRecursiveOrder(c *Ctx, r *Repo, cp *packages.Package, fd *ast.FuncDecl
 	}
 	d.paths = nil
 	d.stmts(start, fl.Body.List, func(p *dtPath) { d.finish(p, "end") })
-	const li, lj = "builtin.len(recursivePackages[I])", "builtin.len(recursivePackages[J])"
+	for _, p := range d.paths {
+		p.rewrite(func(s string) string {
+			return strings.ReplaceAll(strings.ReplaceAll(s, "L[I]", "A"), "L[J]", "B")
+		})
+	}
+	const li, lj = "builtin.len(A)", "builtin.len(B)"
 	okLen, okTie := false, false
 	for _, p := range d.paths {
 		if p.Exit != "return" || len(p.Ret) != 1 {
@@ -658,7 +816,7 @@ func checkRecursiveOrder(c *Ctx, r *Repo, cp *packages.Package, fd *ast.FuncDecl
 				return
 			}
 		case hasEq && eq:
-			if ret == "recursivePackages[I] < recursivePackages[J]" || ret == "recursivePackages[I] > recursivePackages[J]" {
+			if ret == "A < B" || ret == "A > B" || ret == "B < A" || ret == "B > A" {
 				okTie = true
 			}
 		case !hasEq && (ret == li+" > "+lj || ret == lj+" < "+li):
